@@ -14,7 +14,7 @@ def grid(units, full):
             for pos in (1, 2, 3):
                 for limit in [-1] + list(range(0, n)):
                     for kill in KILLS:
-                        for damage, kind in ((0, ""), (1 if pos != 1 else 2, "unreadable"), (1 if pos != 1 else 2, "zero")):
+                        for damage, kind in ((0, ""), (1 if pos != 1 else 2, "unreadable"), (1 if pos != 1 else 2, "zero"), (1 if pos != 1 else 2, "dangling")):
                             if not full and (damage and kill not in ("", "wfa.afterWrite")):
                                 continue
                             lens = [2, 1, 3]
@@ -164,12 +164,12 @@ def run(chk):
                 "tlc_behaviours_replayed": len(behs), "evaluations": n_tr,
                 "distinct_nontrivial": len({json.dumps({k: s[k] for k in ("unit", "lens", "victim", "limitAt", "killPoint", "damage", "damageKind")} | {"after": s.get("after"), "ids": s.get("ids"), "afterIds": s.get("afterIds")}, sort_keys=True)
                                             for s in scripts if s["victim"] and (s["limitAt"] >= 0 or s["killPoint"] or s["damage"])}),
-                "rule": "scenarios = fault projection of TLC -simulate behaviours of ChunkFile plus the complete grid victim length {1,2,3} x queue position {1,2,3} x write stopped at byte k in 0..n-1 or not x kill point {none, after open, after write, after close, after rename} x an unreadable neighbour file, plus every non-monotonic order of three chunk ids x victim position x stop point (the interrupted write is not the newest file), with and without a second life, at byte units %s; non-trivial = a write limit, a kill point or a damaged file" % ([1, 512, 4096, 33000] if thorough else [1, 4096]),
+                "rule": "scenarios = fault projection of TLC -simulate behaviours of ChunkFile plus the complete grid victim length {1,2,3} x queue position {1,2,3} x write stopped at byte k in 0..n-1 or not x kill point {none, after open, after write, after close, after rename} x an unreadable / emptied / vanished (dangling name) neighbour file, plus every non-monotonic order of three chunk ids x victim position x stop point (the interrupted write is not the newest file), with and without a second life, at byte units %s; non-trivial = a write limit, a kill point or a damaged file" % ([1, 512, 4096, 33000] if thorough else [1, 4096]),
                 "exhaustive": True, "event_kinds_seen": sorted(kinds), "samples": [scripts[0], scripts[-1]]})
     chk.level = "fault_enumeration"
     chk.assumptions += ["crash = process death (os.Exit at a kill point inside util.WriteFileAt); the page cache survives, no power loss",
                         "short writes and out-of-space are produced by RLIMIT_FSIZE (SIGXFSZ ignored): write(2) returns a short count, then EFBIG",
-                        "an unreadable file is simulated by a directory of the same name (read(2) fails with EISDIR)"]
+                        "an unreadable file is simulated by a directory of the same name (read(2) fails with EISDIR), a file that vanishes between the scan and its use by a dangling symbolic link; chunk files carry Forward-style names and are recognised by the Forward output's own matcher"]
 
 
 def replay(chk, path):
